@@ -159,16 +159,31 @@ pub fn never_used_peer() -> SocketAddr {
     "198.51.100.9:9".parse().unwrap()
 }
 
+/// key pool: 0 short-term, 1 long-term, 2 a short-term key that is never configured as the remote
+/// one, 3 a long-term twin of key 1 (the same characters with the field boundaries moved: another
+/// key, but equal under any comparison of the concatenated or hashed-together fields), 4 a
+/// short-term twin of key 0 under case folding
 pub fn creds_k(k: u8) -> Creds {
-    match k % 3 {
+    match k % 5 {
         0 => Creds::Short { password: "remote-A".into() },
         1 => Creds::Long {
             user: "bob".into(),
             realm: "example.org".into(),
             password: "remote-B".into(),
         },
-        _ => Creds::Short { password: "never-configured".into() },
+        2 => Creds::Short { password: "never-configured".into() },
+        3 => Creds::Long {
+            user: "bo".into(),
+            realm: "bexample.org".into(),
+            password: "remote-B".into(),
+        },
+        _ => Creds::Short { password: "remote-a".into() },
     }
+}
+
+/// the keys that `SetRemoteCreds(k)` configures: 0, 1, and their twins 3, 4 (never key 2)
+pub fn remote_key_index(k: u8) -> u8 {
+    [0u8, 1, 3, 4][(k % 4) as usize]
 }
 
 fn local_seal_creds() -> Creds {
@@ -1570,7 +1585,7 @@ impl<'h> Interp<'h> {
                 }
             }
             Op::SetRemoteCreds(k) => {
-                let c = creds_k(*k % 2);
+                let c = creds_k(remote_key_index(*k));
                 self.agent.set_remote_credentials(c.to_lib());
                 self.model.remote = Some(c);
             }
@@ -1768,7 +1783,7 @@ fn adv_strategy() -> BoxedStrategy<Adv> {
 fn auth_strategy() -> BoxedStrategy<Auth> {
     prop_oneof![
         2 => Just(Auth::Unsigned),
-        5 => (0u8..3, 0u8..3).prop_map(|(key, algo)| Auth::Signed { key, algo }),
+        5 => (prop_oneof![4 => 0u8..3, 1 => 3u8..5], 0u8..3).prop_map(|(key, algo)| Auth::Signed { key, algo }),
         2 => (0u8..2, 0u8..3).prop_map(|(key, algo)| Auth::Corrupted { key, algo }),
         2 => (0u8..2, 0u8..2, prop_oneof![Just(0u8), Just(4), Just(12), Just(16), Just(19), Just(20), Just(21), Just(24), Just(28), Just(32), Just(33), Just(36), 0u8..=44])
             .prop_map(|(key, algo, len)| Auth::OddLength { key, algo, len }),
@@ -1846,7 +1861,7 @@ pub fn op_strategy(p: Profile) -> BoxedStrategy<Op> {
         retransmits,
         last_ms,
     });
-    let set_creds = prop_oneof![3 => (0u8..2).prop_map(Op::SetRemoteCreds), 1 => (0u8..3).prop_map(Op::SetLocalCreds)];
+    let set_creds = prop_oneof![3 => prop_oneof![3 => 0u8..2, 1 => 2u8..4].prop_map(Op::SetRemoteCreds), 1 => (0u8..3).prop_map(Op::SetLocalCreds)];
     let poll_via = id().prop_map(|holder| Op::PollVia { holder });
     let advance = adv_strategy().prop_map(Op::Advance);
     match p {
@@ -2054,7 +2069,7 @@ pub fn record_run_clock(
                     }
                 }
             }
-            Op::SetRemoteCreds(k) => agent.set_remote_credentials(creds_k(*k % 2).to_lib()),
+            Op::SetRemoteCreds(k) => agent.set_remote_credentials(creds_k(remote_key_index(*k)).to_lib()),
             Op::SetLocalCreds(k) => agent.set_local_credentials(creds_k(*k % 3).to_lib()),
         }
         if restrict_to.is_none() {
